@@ -3,6 +3,7 @@ package checks
 import (
 	"encoding/base64"
 	"fmt"
+	"os"
 	"time"
 
 	"google.golang.org/protobuf/proto"
@@ -59,5 +60,57 @@ func Smoke(tb *plugin.Toolbox) int {
 	}
 	fmt.Println(ev, err)
 	fmt.Println("stderr:", ch.Stderr())
+	return 0
+}
+
+// AltCmp runs the shared corpus through a plugin and an alternative binary of it and
+// reports files whose bytes differ (developer aid for validating fix: commits).
+func AltCmp(tb *plugin.Toolbox, args []string) int {
+	if len(args) < 2 {
+		fmt.Println("altcmp <plugin> <alt binary> [param]")
+		return 2
+	}
+	p, alt := args[0], args[1]
+	param := ""
+	if len(args) > 2 {
+		param = args[2]
+	}
+	c := &Ctx{TB: tb, Seed: 1, Tier: "thorough"}
+	cases := l1Corpus(c, "alt", 1)
+	cases = append(cases, yamlRetypeCase(), importedMessagesCase(), threeServicesCase(), yaml11NamesCase())
+	// alternate toolbox pointing to the alt binary
+	altDir := tb.Scratch + "/altbin"
+	_ = os.MkdirAll(altDir, 0o755)
+	b, err := os.ReadFile(alt)
+	if err != nil {
+		fmt.Println(err)
+		return 2
+	}
+	_ = os.WriteFile(altDir+"/protoc-gen-"+p, b, 0o755)
+	atb := &plugin.Toolbox{Scratch: tb.Scratch, Bin: altDir}
+	same, diff := 0, 0
+	for _, rc := range cases {
+		req, err := spec.Request(rc.Files, rc.Gen, param)
+		if err != nil {
+			continue
+		}
+		a := tb.Run(p, req, plugin.RunOpt{})
+		o := atb.Run(p, req, plugin.RunOpt{})
+		if a.OK() != o.OK() {
+			fmt.Println("OUTCOME DIFFERS", rc.ID, "new:", a.Crash, a.Error, "old:", o.Crash, o.Error)
+			diff++
+			continue
+		}
+		for n, ct := range a.Files {
+			if o.Files[n] == ct {
+				same++
+			} else {
+				diff++
+				d := firstDiff(ct, o.Files[n])
+				fmt.Printf("DIFF %s %s @%d\n  new: %q\n  old: %q\n", rc.ID, n, d, around(ct, d), around(o.Files[n], d))
+			}
+		}
+	}
+	fmt.Printf("altcmp %s: same=%d diff=%d\n", p, same, diff)
 	return 0
 }
